@@ -49,6 +49,31 @@ theorem raw_nodes_is_preorder (H : Bytes → Bytes) (hlen : ∀ b, (H b).length 
   rw [nodesOfD_refines H hlen s.store.base T.root T.tree hcanon hp.1 hrootIn hst fuel, htree,
     nodes_loop_is_preorder ops fuel hf]
 
+/-- **`items()` over the database the executor left — pruning on or off — yields exactly the stored pairs in key order**
+    (`items_exact`, `items_sorted` describe `itemsOf`) -/
+theorem raw_items_is_items (H : Bytes → Bytes) (hlen : ∀ b, (H b).length = 32) (prune : Bool) (ops : List Op)
+    (T : TrieSt) (s : OpSt) (h : ReachOpsNC (stdHashing H) (blankRoot H) prune ops T s)
+    (hbk : Dict.get? s.store.base (blankRoot H) = none)
+    (hsm : ∀ h b, Dict.get? s.store.base h = some b → b.length < 2 ^ 64)
+    (fuel : Nat) (hf : (preorder (run ops) []).length < fuel) :
+    itemsOfD H s.store.base T.root fuel = .ok (itemsOf (run ops)) := by
+  unfold itemsOfD
+  rw [raw_nodes_is_preorder H hlen prune ops T s h hbk hsm fuel hf]
+  simp only [itemsOf, List.filterMap_map]
+  rfl
+
+/-- … hence: a pair is yielded iff it is stored (every stored key exactly once, nothing else) -/
+theorem raw_items_exact (H : Bytes → Bytes) (hlen : ∀ b, (H b).length = 32) (prune : Bool) (ops : List Op)
+    (T : TrieSt) (s : OpSt) (h : ReachOpsNC (stdHashing H) (blankRoot H) prune ops T s)
+    (hbk : Dict.get? s.store.base (blankRoot H) = none)
+    (hsm : ∀ h b, Dict.get? s.store.base h = some b → b.length < 2 ^ 64)
+    (fuel : Nat) (hf : (preorder (run ops) []).length < fuel) :
+    ∃ l, itemsOfD H s.store.base T.root fuel = .ok l ∧
+      (∀ k v, (nibs k, v) ∈ l ↔ v ≠ [] ∧ spec ops k = v) ∧
+      (l.map (·.1)).Pairwise (fun a b => plt a b = true) :=
+  ⟨itemsOf (run ops), raw_items_is_items H hlen prune ops T s h hbk hsm fuel hf,
+    fun k v => items_exact ops k v, items_sorted ops⟩
+
 /-- **`nodes()` over an incomplete database** (bodies withheld, pruned, not yet downloaded; a cache that may hold stale parents of
     earlier versions): the loop yields exactly the raw images of the tree-level loop, or stops with `MissingTraversalNode`
     naming a node that really is absent — never a wrong node, a skipped subtree or a present node reported missing -/
